@@ -9,6 +9,7 @@ import (
 	"sort"
 	"strings"
 	"sync"
+	"sync/atomic"
 	"syscall"
 	"time"
 
@@ -132,7 +133,16 @@ func opRun(fields []string) string {
 	if v == nil {
 		return "COMPILE " + class
 	}
-	res := safeRun(v, text)
+	var res string
+	if len(fields) == 3 && fields[2] == "viafile" {
+		// the same program on a scratch FILE holding the text (RunFiles, mode NOTHING): the matches must be the same
+		// located slices of the same bytes (C03, C09 quantify over files too)
+		path, cleanup := c07Scratch([]byte(text))
+		defer cleanup()
+		res = withBudget(func() string { return canonMatches(v.RunFiles([]string{path}, engine.NOTHING, false)) })
+	} else {
+		res = safeRun(v, text)
+	}
 	return "AST " + v.VerifAst() + "\tCODE " + v.VerifBytecode() + "\tRES " + res
 }
 
@@ -271,8 +281,24 @@ type Case struct {
 
 func (c Case) line() string { return c.ID + "\t" + c.Op + "\t" + strings.Join(c.Fields, "\t") }
 
+// adaptive: the deadline of one case in the pooled pass.  A tree in which something really spins can make hundreds
+// of cases hang; waiting the full deadline for each would take hours, so after 16 hangs the deadline drops to 4 s
+// and after 100 to 1 s.  Every HANG is re-examined by `finish` before it is believed, so a false HANG caused by the
+// shorter deadline cannot become a verdict by itself.
+func adaptive(deadline time.Duration, hangs *int64) time.Duration {
+	n := atomic.LoadInt64(hangs)
+	switch {
+	case n >= 100 && deadline > time.Second:
+		return time.Second
+	case n >= 16 && deadline > 4*time.Second:
+		return 4 * time.Second
+	}
+	return deadline
+}
+
 // runCases executes all cases on the real code, returning id -> result line (without id)
 func runCases(cases []Case, nworkers int, deadline time.Duration) map[string]string {
+	var hangs int64
 	results := make(map[string]string, len(cases))
 	var mu sync.Mutex
 	ch := make(chan Case, len(cases))
@@ -332,7 +358,8 @@ func runCases(cases []Case, nworkers int, deadline time.Duration) map[string]str
 							res = "PROTOCOL " + l
 						}
 					}
-				case <-time.After(deadline):
+				case <-time.After(adaptive(deadline, &hangs)):
+					atomic.AddInt64(&hangs, 1)
 					res = "HANG"
 					w.kill()
 					w = nil
